@@ -7,6 +7,8 @@ PROP = 'C14'
 BIN = 'c14'
 # dense digit-count pass (run.dense_table): width-dependent estimates (digit counts, exponents) make every width interesting here
 DENSE = {'quick': {64: 128}, 'thorough': {8: 1024, 16: 512, 32: 256}}
+DENSE_REQS = {'quick': 60, 'thorough': 60}   # ~7400 types in the thorough tier: the width-sensitive family plus a sample of 120 requests each
+DENSE_MODES = ('dev',)
 SIG = {'tof': 'x', 'fromf': 'dd'}
 encode = default_encode(SIG)
 decode = default_decode(SIG)
